@@ -27,6 +27,7 @@ import (
 	"strconv"
 	"strings"
 	"sync"
+	"syscall"
 	"testing"
 	"time"
 	"unicode/utf8"
@@ -596,6 +597,10 @@ func Main(m *testing.M, property string) {
 	shard.Shard = Shard
 	shard.NShards = NShards
 	os.MkdirAll(WorkDir, 0o755)
+	if mb := envInt("VERIF_MEMLIMIT_MB", 0); mb > 0 {
+		lim := uint64(mb) << 20
+		syscall.Setrlimit(syscall.RLIMIT_AS, &syscall.Rlimit{Cur: lim, Max: lim})
+	}
 	code := m.Run()
 	mu.Lock()
 	for _, s := range shard.Subs {
